@@ -69,9 +69,9 @@ assert len(LONG) == 40
 
 # component alphabets
 F = [b'..', b'.', b'...', b'SUB', b'sub', b'DEEP', b'A.TXT', b'NEW', b'*.*', b'S?B',
-     b'SENTINEL.TXT', b'SIBLING', b'OTHER', b'', LONG + b'.TXT', b'\x82', b'.. ']
+     b'SENTINEL.TXT', b'SIBLING', b'OTHER', b'', LONG + b'.TXT', b'\x82', b'.. ', b'..\t']
 M = [b'..', b'.', b'SUB', b'DEEP', b'A.TXT', b'NEW', b'*.*', b'SENTINEL.TXT', b'SIBLING', b'']
-K = [b'..', b'.. ', b'.', b'SUB', b'A.TXT', b'SENTINEL.TXT', b'']
+K = [b'..', b'.. ', b'..\t', b'.', b'SUB', b'A.TXT', b'SENTINEL.TXT', b'']
 PFX_MOUNTED = [b'', b'\\', b'C:', b'c:', b'C:\\', b'E:', b'E:\\']
 PFX_UNMOUNTED = [b'D:', b'D:\\', b'@:', b'Z:']
 
